@@ -26,6 +26,7 @@ func concurrentDriver(args []string) (*Summary, error) {
 	}
 	defer inputs.Close()
 	s := &Summary{Counters: map[string]int{}}
+	conc.InitReferences()
 	n := 0
 	err = abs.ReadLines(*fl.in, func(line []byte) error {
 		var c conc.Case
